@@ -38,10 +38,10 @@ CLAIMED = {
          'Symbolic execution of the real discov container (OnAdd/OnDelete/addKv/doRemoveKey/removeKv/getValues/notifyChange), cluster.handleWatchEvents/load/handleChanges/calculateChanges, the resolver subset() and the Kubernetes EventHandler: histories of 4-5 watch events and of puts followed by a full reload with keys and values as atoms (equality patterns chosen by the solver), exclusive and non-exclusive subscribers, map iteration order as a decision, against a ghost registry; listeners notified; kube handler publishes exactly the current address set.',
          'go/ssa translation, gosym, z3; atoms (uninterpreted strings with ==, len as an uninterpreted function) for keys/values/IPs; values assumed non-empty; etcd client replaced by a harness fake returning the snapshot; request-timeout context stubbed; exclusive reload snapshots with two new keys for one value excluded (delivery order unspecified); rand.Shuffle = arbitrary swaps.',
          'SSA symbolic execution + SMT (z3), bounded histories over atom strings'),
- 'C08': ('DESIGN.md §4 C08',
-         'Claimed for the pure kernels only (the reflection-driven traversal of the unmarshaller is outside): fieldOptions.toOptionsWithContext for every option combination and dependency presence (resolved Optional equals the specification table; Range/Options/Default/FromString survive resolution), validateNumberRange/validateValueRange for every float64 (exact SMT FloatingPoint: NaN, infinities, signed zeros, subnormals) and every int64/uint64 against all open/closed combinations, validateValueInOptions over atom strings, parseNumberRange over all bracket bytes.',
-         'go/ssa translation, gosym, z3 (FloatingPoint theory for comparisons); which validator the unmarshaller calls for which field, required/default handling and all format front-ends are NOT covered (reflection is not modelled); range bounds assumed non-NaN with left <= right as parseNumberRange guarantees.',
-         'SSA symbolic execution + SMT (z3, exact FloatingPoint for comparisons)'),
+ 'C08': ('DESIGN.md §4 C08, §10.2',
+         'Two layers. (1) Pure kernels: fieldOptions.toOptionsWithContext for every option combination and dependency presence (resolved Optional equals the specification table; Range/Options/Default/FromString survive resolution), validateNumberRange/validateValueRange for every float64 (exact SMT FloatingPoint: NaN, infinities, signed zeros, subnormals) and every int64/uint64 against all open/closed combinations, validateValueInOptions over atom strings, parseNumberRange over all bracket bytes. (2) The real reflection-driven traversal (Unmarshaler.Unmarshal -> unmarshalWithFullName -> processField/processNamedField*/processFieldPrimitive*/fillPrimitive/fillWithSameType/fillSlice/fillMap/generateMap, tag parsing, defaults, optional/optional=dep/optional=!dep) executed on an engine-native model of package reflect over four fixed struct types (ranges on int/float64/*int/uint8 with defaults; options on strings/ints with dependencies and defaults; `string`-option fields fed by Go strings or json.Number literals; nested struct, pointer to struct, slice and map): every key present or absent, numbers as symbolic native values (all ints in +-2^40, every float64), json.Number numerals, wrong-kind values or nil; asserted: accepted iff all required fields are supplied and every supplied value satisfies its range/options/dependency, target = supplied values + defaults, never a panic.',
+         'go/ssa translation, gosym, z3 (FloatingPoint theory for comparisons). reflect is an engine-native model (TypeOf/ValueOf/New/MakeSlice/MakeMap/Indirect, Type: Kind/Elem/Key/Field/NumField/AssignableTo/Implements/..., Value: Kind/Type/Elem/Field/Set*/Interface/Index/Len/MapKeys/MapIndex/SetMapIndex/Convert/IsNil/IsZero/...) - trusted, any reflect function without a model aborts the run as unsupported; the struct types are fixed (the property quantifies over all types: other type shapes, embedded/anonymous fields, TextUnmarshaler, time.Duration, arrays, env vars, and the YAML/TOML/form/path/header front-ends that only build the input map are outside); map iteration order fixed to insertion order in these entries.',
+         'SSA symbolic execution + SMT (z3, exact FloatingPoint for comparisons) over an engine-native reflect model'),
  'C15': ('DESIGN.md §4 C15',
          'Symbolic execution of the real ConsistentHash Add/AddWithReplicas/AddWithWeight/Get/Remove/removeRingNode with the hash function uninterpreted (one fresh symbolic uint64 per distinct input, so every placement and ordering of virtual nodes and probe on the ring is solver-chosen): member-only with collisions allowed; history-independence against a ring rebuilt from the resulting configuration and minimal disruption on add/remove/re-add under pairwise distinct virtual-node hashes.',
          'go/ssa translation, gosym, z3; ring built directly with 1..2 replicas per node (the constructor forces >= 100, identical loop iterations); 2-3 string nodes, 3 operations; lang.Repr = identity on strings; sort.Slice as an oblivious compare-exchange network; relational claims assume collision-free virtual nodes (with collisions the bucket order is history-dependent by design).',
